@@ -244,7 +244,9 @@ Definition load (e : env) : outcome := load_with CF_settingSetup e.
 
 (* ------------------------------------------------------------------ what `layercake status` shows *)
 (* With the three directories absent, the binary prints them as missing items. *)
-Inductive binview := BErr | BDirs (base layers exports : bytes) | BOther.
+Inductive binview := BErr | BDirs (base layers exports : bytes) | BOther
+| BRunOK.   (* observation only: the configuration loaded and not all three directories were reported
+               missing (some exist on the machine), so their names were not all shown *)
 Definition bin_view (o : outcome) : binview :=
   match o with
   | OOk vals => BDirs (nth 0%nat vals []) (nth 1%nat vals []) (nth 7%nat vals [])
